@@ -94,7 +94,8 @@ SafeRecorded(out) == \A i \in Decoded(out) : (Args[i].safe /\ Args[i].kind # "au
 ---------------------------------------------------------------------------
 (* C04: what a parameter position can carry.  Value classes of text; Carry = what the code does with it, Allowed =  *)
 (* what the property permits ("refused by the client or the server, never delivered altered").                      *)
-TextClasses == {"plain", "empty", "reserved", "unicode", "long", "space_edges", "ctl", "obstext"}
+(* "escaped": text that LOOKS percent- or form-encoded ("%41", "a%2Fb", "%2541", "a+b") - it must arrive literally *)
+TextClasses == {"plain", "empty", "reserved", "escaped", "unicode", "long", "space_edges", "ctl", "obstext"}
 Carry(kind, cls) ==
     IF kind = "header"
     THEN CASE cls = "ctl" -> "client-refuses"            \* HeaderValue::try_from rejects control characters
